@@ -102,6 +102,8 @@ type node struct {
 	lateUntil time.Duration
 	resets    int
 	log       *simkit.Logger
+	roundStart map[uint64]time.Duration // current height: round -> instant the round's ELECTION phase ran
+	rsHeight   uint64
 }
 
 type world struct {
@@ -127,6 +129,8 @@ type world struct {
 	gstRound uint64
 	gstDone  bool
 	gstHeight uint64
+	worstSkew time.Duration
+	exit      string
 	slashed  map[string]bool // address|height already slashed (root-chain double signer index)
 }
 
@@ -195,6 +199,15 @@ func drawConfig(c *simkit.Ctx) config {
 			}
 		}
 	}
+	if cfg.byzActive && t.Chance(1, 2) {
+		// one Byzantine validator holding as much as possible below one third (elected leader often)
+		for i := range cfg.stakes {
+			cfg.stakes[i], cfg.byz[i] = 100, false
+		}
+		b := t.Intn(cfg.n)
+		cfg.byz[b] = true
+		cfg.stakes[b] = uint64(50*(cfg.n-1) - 1)
+	}
 	cfg.dropPct = []int{0, 20, 100, 300}[t.Pick(3, 3, 2, 1)]
 	cfg.dupPct = []int{0, 30, 200}[t.Pick(3, 2, 1)]
 	cfg.phaseMS = []int{400, 1000, 150, 2500}[t.Pick(4, 2, 1, 1)]
@@ -203,7 +216,7 @@ func drawConfig(c *simkit.Ctx) config {
 	cfg.bigLatPct = []int{0, 20, 100}[t.Pick(3, 2, 1)]
 	cfg.partitions = t.Chance(1, 3)
 	cfg.rootUpdates = t.Chance(1, 2)
-	cfg.rootRate = []int{5, 30, 100}[t.Pick(2, 2, 1)]
+	cfg.rootRate = []int{2, 8, 30}[t.Pick(2, 2, 1)]
 	cfg.timerLate = []int{0, 50, 200}[t.Pick(3, 2, 1)]
 	cfg.heights = 1 + t.Intn(3)
 	cfg.maxEvents = map[string]int{"quick": 2500, "thorough": 6000}[c.Tier]
@@ -226,6 +239,7 @@ func newWorld(c *simkit.Ctx, cfg config) *world {
 		// deterministic BLS keys from the tape
 		kb := c.T.Bytes(32)
 		kb[0], kb[31] = kb[0]&0x3F, kb[31]&0x3F|1 // keep the scalar below the group order, non-zero
+		kb[15], kb[16] = byte(i+1), byte(0xA5^i)          // distinct keys even on an all-zero (shrunk) tape
 		k, err := crypto.BytesToBLS12381PrivateKey(kb)
 		if err != nil {
 			c.Harnessf("bls key: %v", err)
@@ -242,6 +256,22 @@ func newWorld(c *simkit.Ctx, cfg config) *world {
 	}
 	w.vs = vs
 	w.adv = newAdversary(w)
+	if cfg.byzActive {
+		w.adv.plan = c.T.Pick(3, 2, 2)
+		if w.adv.plan == planStaleHighQC {
+			w.cfg.rootUpdates = true
+			w.cfg.rootRate = 1
+			w.adv.minRound = c.T.Pick(1, 2)
+		}
+		if w.adv.plan != planChaos && c.T.Chance(2, 3) {
+			// a goal-directed attack on an otherwise quiet network: random noise would only break the chain of steps
+			w.cfg.dropPct, w.cfg.dupPct, w.cfg.bigLatPct, w.cfg.timerLate, w.cfg.partitions = 0, 0, 0, 0, false
+			w.cfg.jitter = 5 * time.Millisecond
+			if w.adv.plan == planLockBreak {
+				w.cfg.rootUpdates = c.T.Chance(1, 4)
+			}
+		}
+	}
 	for i := 0; i < cfg.n; i++ {
 		n := &node{w: w, idx: i, key: keys[i], pub: keys[i].PublicKey().Bytes(), addr: keys[i].PublicKey().Address().Bytes(), byz: cfg.byz[i],
 			committed: map[uint64]*commitRec{}, height: w.startH - 1, root: w.rootBase, stop: make(chan struct{}), log: &simkit.Logger{}}
@@ -367,11 +397,17 @@ func (w *world) nextWake() (time.Duration, bool) {
 func (w *world) run(until time.Duration, done func() bool) {
 	c := w.c
 	idle := 0
+	w.exit = "event-budget"
 	for c.Events < w.cfg.maxEvents {
 		synctest.Wait()
 		rs := w.collectReady()
 		if len(rs) == 0 {
-			if done() || w.now() > until {
+			if done() {
+				w.exit = "done"
+				return
+			}
+			if w.now() > until {
+				w.exit = "time-limit"
 				return
 			}
 			// nothing runnable: jump the clock to the next event or timer
@@ -389,6 +425,7 @@ func (w *world) run(until time.Duration, done func() bool) {
 				if d >= 30*time.Second {
 					idle++
 					if idle > 20 {
+						w.exit = "quiescent"
 						return // completely quiescent
 					}
 				}
@@ -425,6 +462,7 @@ func (w *world) run(until time.Duration, done func() bool) {
 		}
 		w.afterStep()
 		if done() {
+			w.exit = "done"
 			return
 		}
 	}
@@ -444,11 +482,17 @@ func (w *world) fireTimer(n *node) {
 	n.fired = false
 	n.mu.Unlock()
 	b := n.bft
+	if b.Phase == lib.Phase_ELECTION {
+		if n.roundStart == nil || n.rsHeight != b.Height {
+			n.roundStart, n.rsHeight = map[uint64]time.Duration{}, b.Height
+		}
+		n.roundStart[b.Round] = w.now()
+	}
 	before := fmt.Sprintf("h%d r%d rh%d %s", b.Height, b.Round, b.RootHeight, lib.Phase_name[int32(b.Phase)])
 	n.ctl.Lock()
 	b.HandlePhase()
 	n.ctl.Unlock()
-	c.Logf("n%d%s phase %s -> %s r%d lock=%s", n.idx, byzTag(n), before, lib.Phase_name[int32(b.Phase)], b.Round, lockStr(b))
+	c.Logf("[%v] n%d%s phase %s -> %s r%d lock=%s", w.now().Round(time.Millisecond), n.idx, byzTag(n), before, lib.Phase_name[int32(b.Phase)], b.Round, lockStr(b))
 	if b.Round >= 3 {
 		c.Probe("round_ge_3")
 	}
@@ -536,6 +580,16 @@ func (w *world) handleEvent(e *event) {
 		w.deliverCert(w.nodes[e.to], e)
 	case "root":
 		w.rootUpdate(w.nodes[e.to], binaryU64(e.data))
+	case "rootbump":
+		if !w.faultsOff() {
+			w.global++
+			c.Fault("root_height_bump")
+			c.Logf("ROOT chain height -> %d", w.global)
+			for _, n := range w.nodes {
+				d := time.Duration(c.T.Intn(w.cfg.phaseMS)) * time.Millisecond
+				w.push(&event{at: w.now() + d, kind: "root", to: n.idx, data: u64Bytes(w.global)})
+			}
+		}
 	case "part":
 		w.startPartition()
 	case "heal":
